@@ -226,13 +226,13 @@ def native_replay(crate, test_source, timeout=900):
     os.makedirs(pb, exist_ok=True)
     cur = os.path.join(pb, "current.rs" if crate == "proto" else "current_driver.rs")
     c = CRATES[crate]
-    cmd = ["cargo", "kani", "playback", "-Z", "concrete-playback", "-p", c["pkg"], *c["features"],
-           "--target-dir", c["target"] + "-playback", "--", name]
+    cmd = ["cargo", "kani", "playback", "-Z", "concrete-playback", "-p", c["pkg"], *c["features"], "--", name]
+    env = dict(ENV, CARGO_TARGET_DIR=c["target"] + "-playback")
     with Lock(crate + "-playback"):
         try:
             with open(cur, "w") as f:
                 f.write(test_source)
-            p = subprocess.run(cmd, cwd=REPO, env=ENV, stdout=subprocess.PIPE, stderr=subprocess.STDOUT,
+            p = subprocess.run(cmd, cwd=REPO, env=env, stdout=subprocess.PIPE, stderr=subprocess.STDOUT,
                                timeout=timeout, text=True, errors="replace")
             out = p.stdout
         except subprocess.TimeoutExpired:
